@@ -59,12 +59,24 @@ impl P {
 
     fn entries(self) -> &'static [&'static str] {
         match self {
-            P::Ts => &["try_from_str", "from_str", "parse_display", "value_cast", "value_parse"],
-            P::Trace | P::Span => &["from_str", "try_from_hex", "try_from_hex_slice", "value_cast"],
+            // `value_cast_<carrier>`: the text arrives as a property value that is not a borrowed `&str` - copied into
+            // an owned / shared buffer, or the Display output of a foreign type - and is cast to the typed form
+            P::Ts => &[
+                "try_from_str", "from_str", "parse_display", "value_cast", "value_parse",
+                "value_cast_owned", "value_cast_shared", "value_cast_display",
+            ],
+            P::Trace | P::Span => &[
+                "from_str", "try_from_hex", "try_from_hex_slice", "value_cast",
+                "value_cast_owned", "value_cast_shared", "value_cast_display",
+            ],
             P::Flags => &["from_str", "try_from_hex_slice"],
             P::Tp => &["try_from_str", "from_str"],
-            P::Level | P::Kind => &["try_from_str", "from_str", "value_cast"],
-            P::Path => &["is_valid_path", "new_ref", "value_cast"],
+            P::Level | P::Kind => &[
+                "try_from_str", "from_str", "value_cast", "value_cast_owned", "value_cast_shared", "value_cast_display",
+            ],
+            P::Path => &[
+                "is_valid_path", "new_ref", "value_cast", "value_cast_owned", "value_cast_shared", "value_cast_display",
+            ],
         }
     }
 
@@ -73,7 +85,29 @@ impl P {
         fn ts(t: Timestamp) -> String {
             format!("{}", t)
         }
+        /// Cast the text through carrier `c` (0 owned buffer, 1 shared buffer, 2 Display of a foreign type).
+        fn via<T: for<'a> emit::value::FromValue<'a>>(c: usize, s: &str) -> Option<T> {
+            struct Foreign<'a>(&'a str);
+            impl<'a> std::fmt::Display for Foreign<'a> {
+                fn fmt(&self, f: &mut std::fmt::Formatter) -> std::fmt::Result {
+                    f.write_str(self.0)
+                }
+            }
+            match c {
+                0 => Value::from(s).to_owned().by_ref().cast::<T>(),
+                1 => Value::from(s).to_shared().by_ref().cast::<T>(),
+                _ => Value::from_display(&Foreign(s)).cast::<T>(),
+            }
+        }
         match (self, e) {
+            (P::Ts, 5..=7) => via::<Timestamp>(e - 5, s).map(ts),
+            (P::Trace, 4..=6) => via::<TraceId>(e - 4, s).map(|v| v.to_string()),
+            (P::Span, 4..=6) => via::<SpanId>(e - 4, s).map(|v| v.to_string()),
+            (P::Level, 3..=5) => via::<Level>(e - 3, s).map(|v| v.to_string()),
+            (P::Kind, 3..=5) => via::<Kind>(e - 3, s).map(|v| v.to_string()),
+            (P::Path, 3) => Value::from(s).to_owned().by_ref().cast::<Path>().map(|v| v.to_string()),
+            (P::Path, 4) => Value::from(s).to_shared().by_ref().cast::<Path>().map(|v| v.to_string()),
+            (P::Path, 5) => Value::from_display(&format_args!("{}", s)).cast::<Path>().map(|v| v.to_string()),
             (P::Ts, 0) => Timestamp::try_from_str(s).ok().map(ts),
             (P::Ts, 1) => Timestamp::from_str(s).ok().map(ts),
             (P::Ts, 2) => Timestamp::parse(s).ok().map(ts),
